@@ -6,6 +6,23 @@ open PS PS.G PS.Heapq
 set_option linter.unusedSectionVars false
 variable {S : Type} [DecidableEq S]
 
+/-- the end of a query that generated nothing but processed an element marks the index empty -/
+theorem epilogue_fbe (s : St S) (nt : NT S Unit) (fr : Frame) (h : (!fr.hasGen && !fr.noSucc) = true) :
+    (epilogue s nt fr).failedByEmpties = true := by
+  unfold epilogue markEmpty
+  simp only [h, if_true]
+  split <;> rfl
+
+/-- the end of a query: the queue is empty and the cost list is unchanged, or the cost of the head is appended -/
+theorem epilogue_append (s : St S) (nt : NT S Unit) (fr : Frame) :
+    ((epilogue s nt fr).queueOf nt = [] ∧ (epilogue s nt fr).clOf nt = s.clOf nt) ∨
+    (∃ e q, (epilogue s nt fr).queueOf nt = e :: q ∧ (epilogue s nt fr).clOf nt = s.clOf nt ++ [e.cost]) := by
+  obtain ⟨sq, _, _, _, _, _, sclnt⟩ := epilogue_shape s nt fr
+  rw [sq nt, sclnt]
+  cases hq : s.queueOf nt with
+  | nil => exact Or.inl ⟨rfl, rfl⟩
+  | cons e q => exact Or.inr ⟨e, q, rfl, rfl⟩
+
 theorem rule_of_cost (E : Env S) (nt : NT S Unit) (f : Sym) (kids : List Prog) (y : Rat) (h : costOf E (.node f kids) nt = some y) :
     ∃ rl, E.G.rule? nt f = some rl := by
   simp only [costOf] at h
